@@ -106,11 +106,11 @@ theorem reach_after {g : Graph} {P : List Nat} (hT : Topo g P) {n m : Nat} (hr :
     ∀ a b, P = a ++ n :: b → m ∈ b := by
   induction hr with
   | step hc => intro a b h; exact hT a _ b h _ hc
-  | trans _ _ ih1 ih2 =>
+  | @trans n' k' m' _ _ ih1 ih2 =>
     intro a b h
     have hk := ih1 a b h
     obtain ⟨a2, b2, hb⟩ := List.append_of_mem hk
-    have := ih2 (a ++ _ :: a2) b2 (by rw [h, hb]; simp)
+    have := ih2 (a ++ n' :: a2) b2 (by rw [h, hb]; simp)
     rw [hb]
     exact List.mem_append_right _ (List.mem_cons_of_mem _ this)
 
